@@ -443,7 +443,7 @@ func c01RunCorruption(r *vcore.Run, c c01Corruption) {
 	ctx := context.Background()
 	mem := ocimem.New()
 	var dig ociregistry.Digest
-	if c.Entry == "GetBlob" || strings.HasPrefix(c.Entry, "GetBlobRange") {
+	if strings.HasPrefix(c.Entry, "GetBlob") {
 		d, err := mem.PushBlob(ctx, "r", descOf(mtOctet, c.Content), bytes.NewReader(c.Content))
 		if err != nil {
 			panic(err)
@@ -480,6 +480,9 @@ func c01RunCorruption(r *vcore.Run, c c01Corruption) {
 			rd, err = client.GetManifest(ctx, "r", dig)
 		case "GetTag":
 			rd, err = client.GetTag(ctx, "r", "t")
+		case "GetBlobWholeRange":
+			// the whole blob asked for as a range: a complete read like any other
+			rd, err = client.GetBlobRange(ctx, "r", dig, 0, -1)
 		case "GetBlobRange":
 			rd, err = client.GetBlobRange(ctx, "r", dig, 0, -1)
 		case "GetBlobRangeInner":
@@ -616,7 +619,7 @@ func c01Check(r *vcore.Run) vcore.Coverage {
 	// (d) corrupted responses: k <= 2 simultaneous corruptions
 	var corr []c01Corruption
 	small := [][]byte{{}, {'a'}, {0x00, 0xC3}, []byte("abc"), []byte(`{"a":1}`)}
-	for _, entry := range []string{"GetBlob", "GetManifest", "GetTag"} {
+	for _, entry := range []string{"GetBlob", "GetManifest", "GetTag", "GetBlobWholeRange"} {
 		for _, content := range small {
 			mods := c01Mods(len(content))
 			corr = append(corr, c01Corruption{Entry: entry, Content: content})
